@@ -17,7 +17,7 @@ def cfg_label(cfg):
 
 def sig_of(cfg, **kw):
     d = dict(env=cfg["env"])
-    for k in ("preset", "cost_type", "scale", "start_depot", "reward_mode", "problem_mode", "speed", "vcap", "dist_mode", "prize_required"):
+    for k in ("preset", "cost_type", "scale", "start_depot", "reward_mode", "problem_mode", "speed", "vcap", "dist_mode", "prize_required", "dense"):
         if k in cfg:
             d[k] = cfg[k]
     d.update(kw)
